@@ -124,21 +124,21 @@ const (
 
 // Event is something a path did that rules care about.
 type Event struct {
-	Kind string // pktstore mapstore lookup update delete call return pktload
-	Node *cfront.Node
-	Lbl  string // target label (record.field) for stores / loads
-	Off  int64
-	Size int64
-	Val  Val
-	Map  string
-	Name string
-	Args []Val
-	Ptr  Val
+	Kind   string // pktstore mapstore lookup update delete call return pktload
+	Node   *cfront.Node
+	Lbl    string // target label (record.field) for stores / loads
+	Off    int64
+	Size   int64
+	Val    Val
+	Map    string
+	Name   string
+	Args   []Val
+	Ptr    Val
 	Looked []string // maps with a successful lookup on every path reaching this event
-	Func string
-	Stack []string // the inlined-call stack (outermost first) when the event happened
-	NAtoms int // number of path atoms in force when the event happened (Paths mode)
-	St     *State // fnreturn events: the state at the return
+	Func   string
+	Stack  []string // the inlined-call stack (outermost first) when the event happened
+	NAtoms int      // number of path atoms in force when the event happened (Paths mode)
+	St     *State   // fnreturn events: the state at the return
 }
 
 // State is one abstract machine state.
@@ -611,7 +611,7 @@ func (a Atom) String() string {
 }
 
 // Facts exposes the packet-length knowledge of a state: Prove(len <= k) / Prove(len >= k).
-func (s *State) ProvesLenAtMost(k int64) bool { return s.Prove(lin.Const(k).Sub(lin.Var(0))) }
+func (s *State) ProvesLenAtMost(k int64) bool  { return s.Prove(lin.Const(k).Sub(lin.Var(0))) }
 func (s *State) ProvesLenAtLeast(k int64) bool { return s.Prove(lin.Var(0).AddK(-k)) }
 
 // SymRange returns the interval currently known for a symbol.
